@@ -224,3 +224,36 @@ pub fn start_watchdog(prop: String) {
         }
     });
 }
+
+/// Buffers ending in every sequence of 1..=4 characters over the UTF-8 length classes {1, 2, 3, 4 bytes}
+/// (`a`, U+00E9, U+20AC, U+1F600), complete and with the last character cut short by one byte, after ASCII
+/// prefixes of lengths around the stride sizes.
+pub fn utf8_tail_shapes() -> Vec<Vec<u8>> {
+    const CH: [&str; 4] = ["a", "\u{E9}", "\u{20AC}", "\u{1F600}"];
+    const PRE: [usize; 10] = [0, 1, 3, 14, 15, 16, 17, 47, 59, 61];
+    let mut out = Vec::new();
+    for n in 1..=4usize {
+        for code in 0..4usize.pow(n as u32) {
+            let mut tail = String::new();
+            let mut c = code;
+            for _ in 0..n {
+                tail.push_str(CH[c % 4]);
+                c /= 4;
+            }
+            for (pi, &pre) in PRE.iter().enumerate() {
+                // the complete tail after every prefix for short sequences, after a rotating subset otherwise
+                if n >= 3 && (pi + code) % 3 != 0 {
+                    continue;
+                }
+                let mut v = vec![b'x'; pre];
+                v.extend_from_slice(tail.as_bytes());
+                out.push(v.clone());
+                if (code + pi) % 4 == 0 && *v.last().unwrap() >= 0x80 {
+                    v.pop();
+                    out.push(v);
+                }
+            }
+        }
+    }
+    out
+}
